@@ -824,7 +824,164 @@ def c19(res, tier, seed, lib):
         shutil.rmtree(d, ignore_errors=True)
 
 
-RUNNERS = {"C13": c13, "C16": c16, "C17": c17, "C18": c18, "C19": c19}
+# ------------------------------------------------------------------------------------------ C08
+
+def c08(res, tier, seed, lib):
+    rnd = random.Random(seed)
+    spaces = ["rgb", "hsl", "lab", "lch", "oklab"]
+    combos = [(n, k, sp) for n in range(2, 13) for k in range(2, 6) for sp in spaces]
+    if tier != "thorough":
+        combos = [c for i, c in enumerate(combos) if i % 3 == seed % 3]
+    ops, meta = [], []
+    for (n, k, sp) in combos:
+        texts = [rand_color_text(rnd) for _ in range(k)]
+        inf = infos(texts)
+        rc, out, err = run_cli(["gradient", "-n", str(n), "-s", sp] + texts)
+        inp = "gradient -n %d -s %s %s" % (n, sp, texts)
+        res.case(inp, True)
+        lines = out.decode().split("\n")
+        if lines and lines[-1] == "":
+            lines.pop()
+        res.check(rc == 0 and len(lines) == n, "gradient-prints-exactly-N", "cli:gradient", inp, "rc=%s %d lines" % (rc, len(lines)))
+        eight = lambda t: not (t.startswith("hsl") or t.startswith("lab"))
+        if lines and eight(texts[0]) and eight(texts[-1]):
+            res.check(lines[0] == inf[0].hsl and lines[-1] == inf[-1].hsl, "gradient-endpoints-are-c1-ck", "cli:gradient", inp, "%s .. %s vs %s .. %s" % (lines[0], lines[-1], inf[0].hsl, inf[-1].hsl))
+        ops.append("gradient %s %d %d %s" % (sp, n, k, " ".join(i.wire for i in inf)))
+        meta.append((inp, out))
+    for (inp, out), mo in zip(meta, model_batch(ops)):
+        res.model_op()
+        want = unhex(mo.split(" ")[1]) if mo.startswith("ok ") else b"?"
+        if want != out:
+            res.disagree(inp, repr(out[:300]), repr(want[:300]))
+    # argument validation
+    for argv, want in [(["gradient", "-n", "1", "red", "blue"], 1), (["gradient", "-n", "0", "red", "blue"], 1),
+                       (["gradient", "red"], 1), (["gradient", "-n", "x", "red", "blue"], 1), (["gradient"], 2),
+                       (["gradient", "-s", "hsv", "red", "blue"], 2)]:
+        rc, out, err = run_cli(argv)
+        res.case(repr(argv))
+        res.check(rc == want and out == b"", "gradient-validation", "cli:gradient", repr(argv), "rc=%s out=%r" % (rc, out[:60]))
+
+
+# ------------------------------------------------------------------------------------------ C02
+
+def c02(res, tier, seed, lib):
+    """Pipes compose: the non-interactive output of any colour-producing command can be fed to
+    another pastel command without a parse error and without moving a channel by more than 3."""
+    rnd = random.Random(seed)
+    n = 1500 if tier == "thorough" else 160
+    producers = [lambda t: ["color", t], lambda t: ["lighten", "0.1", t], lambda t: ["darken", "0.05", t],
+                 lambda t: ["saturate", "0.2", t], lambda t: ["desaturate", "0.1", t], lambda t: ["rotate", "33", t],
+                 lambda t: ["complement", t], lambda t: ["mix", "-f", "0.3", "red", t], lambda t: ["to-gray", t],
+                 lambda t: ["textcolor", t], lambda t: ["colorblind", "deuter", t], lambda t: ["set", "hsl-hue", "77", t],
+                 lambda t: ["gradient", "-n", "3", t, "black"], lambda t: ["sort-by", "hue", t, "white"]]
+    for i in range(n):
+        t = rand_color_text(rnd)
+        cmd = producers[i % len(producers)](t)
+        rc1, out1, err1 = run_cli(cmd)
+        res.case("pipe " + repr(cmd))
+        if rc1 != 0:
+            res.fail("producer-exit-0", "cli:" + cmd[0], repr(cmd), "rc=%s %r" % (rc1, err1[-100:]))
+            continue
+        rc2, out2, err2 = run_cli(["format", "rgb"], stdin=out1)
+        res.check(rc2 == 0, "piped-output-parses", "cli:" + cmd[0], repr(cmd), "stdout %r -> rc=%s %r" % (out1[:80], rc2, err2[-100:]))
+        # channels moved by at most 3: compare with the library's reading of each printed line
+        lines = out1.decode().split("\n")[:-1]
+        inf = infos(lines)
+        got = out2.decode().split("\n")[:-1]
+        for l, i2, g in zip(lines, inf, got):
+            m = re.match(r"rgba?\((\d+), (\d+), (\d+)", g)
+            if i2.ok and m:
+                want = ((i2.packed >> 16) & 255, (i2.packed >> 8) & 255, i2.packed & 255)
+                have = tuple(int(x) for x in m.groups())
+                res.check(have == want, "pipe-is-parse-of-printed-line", "cli:format", l, "%s vs %s" % (have, want))
+
+
+# ------------------------------------------------------------------------------------------ C06
+
+def c06(res, tier, seed, lib):
+    """`pastel set P V C | pastel format P` reads back V (for properties printed by `format`),
+    and the output equals the model's `set`."""
+    rnd = random.Random(seed)
+    readable = {"hsl-hue": (0, 360, 0.5), "hsl-saturation": (0, 1, 1e-4), "hsl-lightness": (0, 1, 1e-4)}
+    colors = [rand_color_text(rnd) for _ in range(20 if tier != "thorough" else 120)]
+    inf = infos(colors)
+    ops, meta = [], []
+    for p in SET_PROPS:
+        for _ in range(6 if tier != "thorough" else 40):
+            ci = rnd.randrange(len(colors))
+            if p in ("red", "green", "blue"):
+                v = rnd.choice([0, 255, 300, -5, 127.6, rnd.uniform(0, 255)])
+            elif p in ("hsl-hue", "hue"):
+                v = rnd.uniform(0, 359)
+            elif p in ("lightness",):
+                v = rnd.uniform(0, 100)
+            elif p in ("lab-a", "lab-b", "chroma"):
+                v = rnd.uniform(0, 80)
+            else:
+                v = rnd.choice([0, 1, 0.5, rnd.uniform(0, 1), 1.5])
+            if v < 0:
+                continue  # clap would read a negative value as a flag
+            vt = repr(float(v))
+            rc, out, err = run_cli(["set", p, vt, colors[ci]])
+            inp = "set %s %s %s" % (p, vt, colors[ci])
+            res.case(inp)
+            res.check(rc == 0, "exit-0", "cli:set", inp, "rc=%s %r" % (rc, err[-100:]))
+            if p in readable and rc == 0:
+                lo, hi, tol = readable[p]
+                rc2, out2, _ = run_cli(["format", p], stdin=out)
+                try:
+                    back = float(out2.decode().strip())
+                    want = min(max(v, lo), hi) if p != "hsl-hue" else v % 360
+                    # the printed hsl line carries 1 decimal of s/l and whole degrees of hue
+                    tol2 = {"hsl-hue": 0.5001, "hsl-saturation": 0.00051, "hsl-lightness": 0.00051}[p]
+                    res.check(abs(back - want) <= tol2 or (p == "hsl-hue" and abs(abs(back - want) - 360) <= tol2), "set-then-format-reads-value", "cli:set", inp, "read back %r, expected %r" % (back, want))
+                except ValueError:
+                    res.fail("set-then-format-reads-value", "cli:set", inp, repr(out2))
+            import struct
+            ops.append("set %s %s %s" % (p, struct.pack(">d", float(v)).hex(), inf[ci].wire))
+            meta.append((inp, out))
+    fm = model_batch(ops)
+    # the model answers with a wire colour; print it through the model's hsl formatter
+    fops = []
+    for mo in fm:
+        t = mo.split(" ")
+        fops.append("fmt hsl nosp " + " ".join(t[1:5]) if t[0] == "ok" else "bad")
+    fouts = model_batch(fops)
+    for (inp, out), mo in zip(meta, fouts):
+        res.model_op()
+        want = unhex(mo.split(" ")[1]) + b"\n" if mo.startswith("ok ") else b"?"
+        if want != out:
+            res.disagree(inp, repr(out[:200]), repr(want[:200]))
+
+
+# ------------------------------------------------------------------------------------------ C14
+
+def c14(res, tier, seed, lib):
+    rnd = random.Random(seed)
+    runs = 10 if tier == "thorough" else 3
+    for i in range(runs):
+        n = rnd.choice([2, 3, 4])
+        kf = rnd.randrange(0, n + 1)
+        fixed = ["#%02x%02x%02x" % (rnd.randrange(256), rnd.randrange(256), rnd.randrange(256)) for _ in range(kf)]
+        metric = rnd.choice(["CIE76", "CIEDE2000"])
+        rc, out, err = run_cli(["distinct", "-m", metric, str(n)] + fixed, timeout=120)
+        inp = "distinct -m %s %d %s" % (metric, n, fixed)
+        res.case(inp)
+        lines = out.decode().split("\n")[:-1]
+        res.check(rc == 0 and len(lines) == n, "distinct-prints-exactly-n", "cli:distinct", inp, "rc=%s %d lines %r" % (rc, len(lines), err[-100:]))
+        finf = infos(fixed)
+        for f in finf:
+            res.check(f.hsl in lines, "distinct-includes-fixed", "cli:distinct", inp, "%s not in %s" % (f.hsl, lines))
+        if fixed and lines:
+            res.check(lines[0] == finf[0].hsl, "distinct-first-fixed-stays-first", "cli:distinct", inp, lines[0])
+    for argv, want in [(["distinct", "1"], 1), (["distinct", "0"], 1), (["distinct", "2", "red", "blue", "green"], 1),
+                       (["distinct", "x"], 1), (["distinct", "-m", "nope", "3"], 2)]:
+        rc, out, err = run_cli(argv, timeout=60)
+        res.case(repr(argv))
+        res.check(rc == want and out == b"", "distinct-validation", "cli:distinct", repr(argv), "rc=%s out=%r" % (rc, out[:60]))
+
+
+RUNNERS = {"C02": c02, "C06": c06, "C08": c08, "C13": c13, "C14": c14, "C16": c16, "C17": c17, "C18": c18, "C19": c19}
 
 
 def run(prop, tier, seed, lib):
